@@ -1,48 +1,48 @@
 check("C01", "exploration",
       "Runtime monitoring of totality: every execution of Parse+Render / Convert runs under recover() in worker processes with a crash slot; "
-      "held = no panic, no error, no fatal runtime error and no CPU-limit overrun on all cases of the run (exhaustive short strings x configurations, soup, corpus mutants, pathological families).",
+      "held = no panic, no error, no fatal runtime error and no CPU-limit overrun on all cases of the run (exhaustive short strings x configurations, soup, corpus mutants, pathological families, extensions built with non-default options).",
       "Trusted: Go's recover()/runtime, the driver's crash-slot replay. Says nothing about inputs not generated; termination is bounded-CPU on an isolated replay, not a proof.",
-      "runtime monitoring: panic/error/fatal/CPU-limit oracle over exhaustive-short + randomized + pathological workloads across the 288-configuration lattice",
+      "runtime monitoring: panic/error/fatal/CPU-limit oracle over exhaustive-short + randomized + pathological + coverage-guided workloads across the 288-configuration lattice and option-bearing configurations",
       "DESIGN.md section 4 / C01")
 check("C13", "exploration",
       "Reference-model monitoring: every ast mutation call runs in lock-step with a list-of-children model and all accessors of all pool nodes are compared after each call; "
-      "all call sequences up to length 2 (quick) / 3 (thorough) over a 6-node pool are enumerated, plus long random sequences and Walk visitor scripts against a model walker.",
+      "all call sequences up to length 2 (quick) / 3 (thorough) over a 6-node pool are enumerated, plus long random sequences (including a comparator that itself sorts another parent) and Walk visitor scripts against a model walker, on small trees exhaustively and on deep and wide trees at boundary sizes.",
       "Trusted: the 60-line list model and model walker (written from the interface documentation). Sequences longer than the exhaustive bound are sampled only.",
       "runtime monitoring: lock-step reference model (list-of-children tree, model walker) over exhaustive short and random long call sequences",
       "DESIGN.md section 4 / C13")
 check("C18", "exploration",
       "Reference-model monitoring: text.Reader and text.BlockReader execute call sequences in lock-step with a concatenated-view cursor model; every return value and the final observable state are compared; "
-      "exhaustive over short sources x short call sequences, random beyond; Segment arithmetic compared with byte-level definitions.",
+      "exhaustive over short sources x short call sequences, random beyond, and long sources whose line count sits at every boundary size with several saved positions and far jumps; Segment arithmetic compared with byte-level definitions.",
       "Trusted: the reference cursor (about 100 lines) and the generator's encoding of the documented preconditions (listed in the evidence assumptions).",
       "runtime monitoring: lock-step reference cursor over exhaustive short and random call sequences",
       "DESIGN.md section 4 / C18")
 check("C19", "exploration",
       "Law monitoring: each utility is executed on every short string over a law-relevant alphabet and on random longer strings, and its output is checked by an oracle for each stated law "
-      "(round trip through html.UnescapeString, relational unit alignment for URLEscape, reference decoders, fold-orbit equivalence over all code points, a map-based set model for BytesFilter trees with computed slot collisions).",
+      "(round trip through html.UnescapeString, relational unit alignment for URLEscape, reference decoders, fold-orbit equivalence over all code points, a map-based set model for BytesFilter trees with computed slot collisions and keys that share the full 64-bit hash and length).",
       "Trusted: html.UnescapeString, unicode.SimpleFold tables, the small reference decoders. Strings longer than the exhaustive bound are sampled.",
       "runtime monitoring: algebraic-law oracles over exhaustive short strings, all Unicode fold orbits and enumerated filter programs",
       "DESIGN.md section 4 / C19")
 check("C20", "exploration",
       "Trace monitoring: probe block/inline parsers, transformers and node renderers log their invocations; for every enumerated scenario (priorities x registration order x route x accept pattern) "
-      "the recorded invocation order and the chosen renderer are compared with a priority-sorted dispatch model; kinds without renderer function (incl. kinds created after initialisation) must be skipped with children rendered.",
+      "the recorded invocation order and the chosen renderer are compared with a priority-sorted dispatch model; kinds without renderer function (incl. kinds created after initialisation) must be skipped with children rendered; pairs of instances built from one shared registration list (through goldmark.New options and through a caller-built Parser/Renderer) must each follow their own priorities.",
       "Trusted: the dispatch model (sorted-by-priority, first accept wins, trigger-less after triggered). Equal priorities are excluded because their order is undocumented.",
       "runtime monitoring: invocation-log checker against a priority dispatch model over enumerated registration scenarios",
       "DESIGN.md section 4 / C20")
 check("C03", "exploration",
       "Output monitoring: every safe-mode output of the run is parsed by a strict tokenizer written from the statement (fixed vocabulary, quoted values, no raw '<', well-formed references, only the placeholder comment, proper nesting); "
-      "XHTML outputs are additionally parsed by encoding/xml in strict mode. Adversarial soup, exhaustive short adversarial strings and corpus mutants across all 144 safe configurations.",
+      "XHTML outputs are additionally parsed by encoding/xml in strict mode. Adversarial soup, exhaustive short adversarial strings, corpus mutants and attribute blocks (allowed names, names that collide with an allowed name under the allow-list's hash, hostile values) across all 144 safe configurations and the option-bearing ones.",
       "Trusted: the tokenizer and vocabulary tables (oracle/htmltok.go), encoding/xml with the HTML entity set. Inputs not generated are not covered.",
       "runtime monitoring: strict output tokenizer + XML parser as oracles over adversarial and exhaustive-short workloads in every safe configuration",
       "DESIGN.md section 4 / C03")
 check("C04", "exploration",
       "Output monitoring: every href/src emitted in safe mode is decoded and normalised the way a browser's URL parser finds the scheme, then tested against the dangerous schemes; "
-      "the workload spells the four schemes with every escaping device in every URL-bearing construct across the safe configurations.",
+      "the workload spells the four schemes with every escaping device in every URL-bearing construct across the safe configurations; each document first passes through the unsafe twin of the configuration in the same process.",
       "Trusted: the tokenizer, html.UnescapeString, the 20-line browser-like normaliser (leading C0/space stripped, TAB/LF/CR removed, percent escapes not decoded).",
       "runtime monitoring: browser-like URL normaliser as oracle over a URL-spelling generator x URL-bearing constructs x safe configurations",
       "DESIGN.md section 4 / C04")
 check("C05", "exploration",
       "Invariant monitoring: every tree returned by Parse is walked through accessors and every structural, placement and position invariant of the statement is asserted on every node; "
-      "exhaustive short strings, soup and corpus mutants across the 36 parser-side configurations.",
+      "exhaustive short strings, soup, corpus mutants and scalable families (nesting, long runs, n footnotes/definitions/table cells in orders that make the count matter) at boundary sizes across the 36 parser-side configurations and option-bearing ones.",
       "Trusted: the walker (oracle/astwalk.go). Only trees produced by the run's inputs are covered.",
       "runtime monitoring: AST invariant walker (assertions on the returned tree) over exhaustive-short and randomized inputs x parser-side configurations",
       "DESIGN.md section 4 / C05")
@@ -78,7 +78,7 @@ check("C08", "exploration",
       "DESIGN.md section 4 / C08")
 check("C09", "exploration",
       "Metamorphic monitoring of two relations: Convert(A + blank + ATX heading + blank + B) == Convert(A) + heading + Convert(B) for CR-free, '['-free A, B with A not ending in an open code/HTML block "
-      "(openness decided from the specification's end conditions on A's own tree, conservatively; skipped pairs are counted); and Convert(Defs + D) == Convert(D + Defs) for generated definition blocks with fresh labels referenced from D in case/whitespace variants.",
+      "(openness decided from the specification's end conditions on A's own tree, conservatively; skipped pairs are counted); and Convert(Defs + D) == Convert(D + Defs) for generated definition blocks with fresh labels referenced from D in case/whitespace variants, also when D has k definitions of its own for k at every boundary size.",
       "Trusted: the side-condition classifier (conservative: when in doubt a pair is skipped) and the definition generator (valid definitions by construction). Pairs are sampled.",
       "runtime monitoring: metamorphic relations (block independence, definition position independence) between executions of the real converter",
       "DESIGN.md section 4 / C09")
@@ -90,32 +90,32 @@ check("C10", "exploration",
       "DESIGN.md section 4 / C10")
 check("C11", "exploration",
       "Metamorphic monitoring: documents are made free of an extension's trigger characters by substitution and converted with and without that extension (alone and inside random base sets, safe and unsafe); outputs must be identical. "
-      "extension.GFM is compared with its four members on arbitrary documents.",
+      "extension.GFM is compared with its four members on arbitrary documents under every combination of renderer flags, interleaved in one process.",
       "Trusted: the trigger sets copied from the statement. Documents and base sets are sampled; exhaustive for short strings with the empty base set.",
       "runtime monitoring: metamorphic relation (with/without extension on trigger-free documents; GFM versus members) between executions of the real converter",
       "DESIGN.md section 4 / C11")
 check("C15", "exploration",
       "Output and tree monitoring: with AutoHeadingID on (Attribute off, safe mode) every output is tokenized and every h1..h6 must carry a non-empty id, pairwise distinct within the document; the parsed tree must agree (every ast.Heading has a non-empty id, same number of headings); "
-      "every document is converted by a long-lived instance with a history and by a fresh instance and the id lists must be equal. All arrival orders of up to 4/5 heading texts from a 16-text collision pool, random multisets up to 40 headings, ATX/Setext, inside quotes, lists, footnotes, definition lists; 9 extension sets.",
+      "every document is converted by a long-lived instance with a history (which includes documents with up to 1025 headings) and by a fresh instance and the id lists must be equal. All arrival orders of up to 4/5 heading texts from a 16-text collision pool, random multisets up to 40 headings, ATX/Setext, inside quotes, lists, footnotes, definition lists; 9 extension sets.",
       "Trusted: the strict tokenizer. Heading ids only (collisions with other generated ids are out of the statement). Documents beyond the exhaustive bound are sampled.",
       "runtime monitoring: output tokenizer + tree assertions (presence, non-emptiness, uniqueness of heading ids) and fresh-versus-history comparison over exhaustive heading-text sequences and random documents",
       "DESIGN.md section 4 / C15")
 check("C16", "exploration",
       "Output monitoring: every output of a Footnote configuration (safe mode) is tokenized and the footnote structure is checked - items numbered 1..m in order, each reference shows and links its item, back-links sit in their item, point to an existing reference and correspond one to one to references, all ids distinct; "
-      "by construction the generator knows which definitions are referenced nowhere (their marker words must be absent) and, for plain documents, the item count, item order and every reference number.",
+      "by construction the generator knows which definitions are referenced nowhere (their marker words must be absent) and, for plain documents, the item count, item order and every reference number. Configurations include short and long id prefixes, all footnote options set, and one parser.Context reused across documents.",
       "Trusted: the strict tokenizer, the 150-line structure checker, the generator's bookkeeping for plain documents. Documents are sampled.",
       "runtime monitoring: output structure checker (ids, cross-links, numbering) plus by-construction expectations over generated footnote documents, footnote soup and corpus mutants",
       "DESIGN.md section 4 / C16")
 check("C17", "exploration",
       "Output and tree monitoring: every <table> of every output (Table configurations, safe mode, all four alignment methods) must have one header row, rectangular body rows and column-consistent alignments; the parsed tree must agree (Alignments, header and rows of equal length); "
-      "for generated tables the shape, alignments, cell contents, padding and truncation are known by construction and compared, and candidates with a header/delimiter cell-count mismatch must not become a table.",
+      "for generated tables the shape, alignments, cell contents, padding and truncation are known by construction and compared, and candidates with a header/delimiter cell-count mismatch must not become a table; sibling tables that differ only in their delimiter row are converted one after the other from one reused source buffer.",
       "Trusted: the strict tokenizer, the table checker, the table generator (tables placed where GFM certainly forms one). Documents are sampled.",
       "runtime monitoring: output/tree shape checker plus by-construction expectations over generated tables, pipe/dash/colon soup and corpus mutants",
       "DESIGN.md section 4 / C17")
 check("C02", "exploration",
       "By-construction conformance monitoring: a generator draws an abstract document (all core block and inline constructs of the statement) and derives independently a Markdown spelling under random surface choices (markers, ATX/Setext, fence character/length/indent, 0-3 columns of indentation, tabs reaching the same columns incl. after quote and list markers, lazy continuation lines, reference label case/whitespace variants, either emphasis delimiter, backslash/entity/numeric escapes) "
       "and the HTML the specification prescribes; the converter's output must equal it up to whitespace adjacent to block tags. Second part: all 652 spec examples under eight spec-licensed rewrites against spec.json's HTML. "
-      "Third part: an independent implementation of the emphasis (delimiter-run) rules, validated on the 103 applicable spec examples, is the reference model for every line over {*, _, a, space} up to length 8/10 and for random longer lines with punctuation.",
+      "Third part: an independent implementation of the emphasis (delimiter-run) rules, validated on the 103 applicable spec examples, is the reference model for every line over {*, _, a, space} up to length 8/10 and for random longer lines with punctuation. Fourth part: an independent implementation of the whole inline chapter (code spans, emphasis, inline/reference links, images, autolinks, raw HTML, entities, escapes, hard and soft breaks; 323 spec examples reproduced) is the reference model for paragraphs that are paragraphs by construction: every string up to a length bound over eight construct-specific alphabets, and random token lines.",
       "Trusted: the generator (harness/sg, ~1100 lines) - each construct is only generated where the specification fixes its meaning; no reference implementation exists on this machine, every deviation it reported was checked against the specification text before being treated as a defect. The claim covers the generated language and the rewrite set only.",
-      "runtime monitoring: by-construction expected-output oracle over generated documents, spec.json as oracle over rewritten examples, reference model of the emphasis rules in lock-step over exhaustive short lines",
+      "runtime monitoring: by-construction expected-output oracle over generated documents, spec.json as oracle over rewritten examples, reference models of the emphasis rules and of the inline chapter in lock-step over exhaustive short lines and paragraphs",
       "DESIGN.md section 4 / C02")
